@@ -247,3 +247,12 @@ Definition chk_iter_lists (P : chunked) (L : lcol) (nm : string) (impl : res (li
     wf_b P; lcol_eqb (abs P) L ].
 Definition chk_iter_all (P : chunked) (L : lcol) (impls : list (string * res (list nprow))) : list bool :=
   fold_right (fun x acc => map2 andb (chk_iter_lists P L (fst x) (snd x)) acc) [true; true; true; true] impls.
+
+(* ---------- C01 / C17: a cast between nested dtypes (Cast.v) ---------- *)
+From NP Require Import Cast.
+(* P: the source column; target: the dtype asked for; sp: what the specification says; impl: what astype returned *)
+Definition chk_astype (P : chunked) (target : schema) (sp : res lcol) (impl : res lcol) : list bool :=
+  [ res_eqb lcol_eqb (res_map abs (m_astype_nested P target)) impl;
+    res_eqb lcol_eqb sp impl;
+    true;
+    wf_b P ].
